@@ -132,6 +132,8 @@ pub struct Flat {
     pub tot_b: f64,
     pub misc: BTreeMap<String, String>,
     pub max_factor: f64,
+    /// Parsed metadata (filled by callers that compare what was declared, C10).
+    pub meta: Vec<(String, String)>,
     /// Annual DHW demand, if declared.
     pub dhw_demand: Option<f64>,
     /// Distance of the DHW indicator's two `abs() < 0.01` tests from their threshold (smaller = more
@@ -364,6 +366,7 @@ pub fn flatten(ep: &EnergyPerformance) -> Flat {
         }
     }
     Flat {
+        meta: Vec::new(),
         dhw_demand: ep.balance.needs.ACS.map(|v| v as f64),
         dhw_threshold_margin: margin,
         items,
